@@ -256,5 +256,31 @@ theorem rotate_matrix_route_doc (L : Nat) (cmin : Int) (zI aI gI DI A : Nat) (a 
   have := GenMethod.D_rotor_doc L cmin zI aI gI DI a b d g h ht imsqrt hsq R hR F h0 hz ha hg hza hzg hag ell n m h1 (by omega) (by omega) hm
   rw [show CPow.toC = toC from rfl] at this
   rw [this]
+
+/-- … stated for the GENERATED matrix branch of the method (`Gen.Wigner_rotate_matrix_body`: `D = self.D(R, …)` then `_rotate(…, D)`, from the text) -/
+theorem rotate_matrix_body_doc (L : Nat) (cmin : Int) (zI aI gI DI A : Nat) (a b d g h : Int → ℝ) (ht : GenH.TabOK L a b d g h) (imsqrt : Cx ℝ → ℝ)
+    (hsq : ∀ w : Cx ℝ, w.re ^ 2 + w.im ^ 2 = 1 → 2 * (imsqrt w) ^ 2 = 1 - w.re)
+    (R : Int → ℝ) (hR : R 0 ^ 2 + R 1 ^ 2 + R 2 ^ 2 + R 3 ^ 2 = 1) (F : φ) (h0 : 0 ≤ cmin)
+    (hz : 2 < zI) (ha : 2 < aI) (hg : 2 < gI) (hza : zI ≠ aI) (hzg : zI ≠ gI) (hag : aI ≠ gI)
+    (flm : Int → Cx ℝ) (eM : Nat) (sw : Int) (ell : Nat) (m : Int) (hm : m.natAbs ≤ ell) (hl : ell ≤ eM) (hL : eM ≤ L) (hs : sw.natAbs ≤ ell) (h1 : cmin ≤ ell) :
+    toC (frdC (α := ℝ) (Gen.Wigner_rotate_matrix_body (α := ℝ) R zI g h (L : Int) (L : Int) a b d GenH.idW GenH.idV GenH.idX DI aI imsqrt gI cmin
+        flm A 0 (eM : Int) sw 1 0 0 F) A ((ell : Int) * ((ell : Int) + 1) + m))
+      = ∑ n ∈ Finset.Icc (-(ell : ℤ)) ell, toC (flm ((ell : Int) * ((ell : Int) + 1) + n)) * DDef.docD ell (DDef.Ra (R 0) (R 3)) (DDef.Rb (R 1) (R 2)) n m :=
+  rotate_matrix_route_doc L cmin zI aI gI DI A a b d g h ht imsqrt hsq R hR F h0 hz ha hg hza hzg hag flm eM sw ell m hm hl hL hs h1
+
+/-- … and for the GENERATED loop body of the matrix branch of `Wigner.evaluate` (`Gen.Wigner_evaluate_matrix_rotor`: `self.sYlm(…, out=Y)` then `np.matmul`) -/
+theorem evaluate_matrix_rotor_doc (Lc P : Nat) (c : Nat) (sw : Int) (zI aI YI fv : Nat) (a b d g h : Int → ℝ) (ht : GenH.TabOK Lc a b d g h) (imsqrt : Cx ℝ → ℝ)
+    (hsq : ∀ w : Cx ℝ, w.re ^ 2 + w.im ^ 2 = 1 → 2 * (imsqrt w) ^ 2 = 1 - w.re) (cpowi : Cx ℝ → Int → Cx ℝ)
+    (R : Int → ℝ) (hR : R 0 ^ 2 + R 1 ^ 2 + R 2 ^ 2 + R 3 ^ 2 = 1)
+    (hY : CPow.toC (cpowi (Model.eulerPhases (R 0) (R 1) (R 2) (R 3)).2.2 ((Int.natAbs sw : Nat) : Int))
+        = CPow.toC (Model.eulerPhases (R 0) (R 1) (R 2) (R 3)).2.2 ^ sw.natAbs) (F : φ)
+    (hz : 2 < zI) (ha : 2 < aI) (hza : zI ≠ aI) (hsP : sw.natAbs ≤ P) (hsLc : (sw.natAbs : Int) ≤ (Lc : Int) + 1)
+    (mw : Int → Cx ℝ) (L : Nat) (hL : L ≤ Lc) (hn : (c : Int) ≤ L + 1) :
+    toC (frdC (α := ℝ) (Gen.Wigner_evaluate_matrix_rotor (α := ℝ) R zI g h (Lc : Int) (P : Int) a b d GenH.idW GenH.idV GenH.idX YI aI imsqrt cpowi sw (c : Int)
+        mw fv 0 (L : Int) 1 0 F) fv 0)
+      = ∑ ell ∈ Finset.Icc c L, ∑ m ∈ Finset.Icc (-(ell : ℤ)) ell, toC (mw ((ell : Int) * ((ell : Int) + 1) + m)) *
+          (if sw.natAbs ≤ ell then (((-1) ^ sw.natAbs * Real.sqrt ((2 * (ell : ℝ) + 1) / (4 * Real.pi)) : ℝ) : ℂ)
+              * DDef.docD ell (DDef.Ra (R 0) (R 3)) (DDef.Rb (R 1) (R 2)) m (-sw) else 0) :=
+  evaluate_matrix_route_doc Lc P c sw zI aI YI fv a b d g h ht imsqrt hsq cpowi R hR hY F hz ha hza hsP hsLc mw L hL hn
 end
 end GenRotM
